@@ -243,7 +243,7 @@ theorem inv_step (c : Cfg) (δ : Nat) (hδ : 2 * δ < c.half + c.susp) (s s' : S
   | crash x => exact inv_crash c δ s now x I
   | net cuts => exact inv_net c δ s now cuts I hw
   | drop m hm hc => exact inv_drop c δ s now m I hc
-  | tick a shuf ha => exact inv_tick c δ hδ s now a shuf I
+  | tick a shuf ha _ => exact inv_tick c δ hδ s now a shuf I
   | msg m hm hc =>
     unfold handleMsg
     cases hk : m.kind
